@@ -15,7 +15,7 @@ import (
 // vocabulary with its own weights so that its cases are spent where the property bites.
 type Weights struct {
 	CreateFixed, CreateBatch, AddAllowed, UpdateAllowed, PlaceBid, ModifyBid int
-	Cancel, Donate, Block, UpdateParams, MsgAddAllowed, Reimport             int
+	Cancel, Donate, Block, UpdateParams, MsgAddAllowed, Reimport, FaultBlock int
 	// PerturbPct is the probability (percent) that a message gets 1..2 perturbations aimed at
 	// one of its preconditions.
 	PerturbPct int
@@ -39,7 +39,7 @@ type Weights struct {
 // DefaultWeights is the general mix.
 func DefaultWeights() Weights {
 	return Weights{CreateFixed: 6, CreateBatch: 8, AddAllowed: 10, UpdateAllowed: 4, PlaceBid: 30, ModifyBid: 10,
-		Cancel: 3, Donate: 4, Block: 22, UpdateParams: 2, MsgAddAllowed: 1, PerturbPct: 12, PoorPct: 15, MaxAuctions: 4, ManyInstalmentsPct: 3, SnipePct: 10, DonateWaitingPct: 15, Reimport: 1}
+		Cancel: 3, Donate: 4, Block: 22, UpdateParams: 2, MsgAddAllowed: 1, PerturbPct: 12, PoorPct: 15, MaxAuctions: 4, ManyInstalmentsPct: 3, SnipePct: 10, DonateWaitingPct: 15, Reimport: 1, FaultBlock: 1}
 }
 
 // Gen draws operations. All randomness comes from rapid draws.
@@ -282,7 +282,7 @@ func (g *Gen) Next(t *rapid.T, w *World, s *Snap) Op {
 	}
 	cs = append(cs, choice{OpBlock, g.W.Block}, choice{OpUpdateParams, g.W.UpdateParams})
 	if nA > 0 {
-		cs = append(cs, choice{OpReimport, g.W.Reimport})
+		cs = append(cs, choice{OpReimport, g.W.Reimport}, choice{OpFaultBlock, g.W.FaultBlock})
 	}
 	total := 0
 	for _, c := range cs {
@@ -324,6 +324,12 @@ func (g *Gen) Next(t *rapid.T, w *World, s *Snap) Op {
 	case OpReimport:
 		g.label("history:genesis-reimport")
 		return Op{Kind: OpReimport}
+	case OpFaultBlock:
+		o := g.genBlock(t, w, s)
+		o.Kind = OpFaultBlock
+		o.FailAt = rapid.IntRange(0, 7).Draw(t, "fail-at")
+		g.label("history:block-with-injected-bank-fault")
+		return o
 	default:
 		return g.genBlock(t, w, s)
 	}
